@@ -1,6 +1,8 @@
 package rules
 
 import (
+	"fmt"
+	"go/types"
 	"sort"
 	"strings"
 
@@ -197,4 +199,93 @@ func DumpPerms(c *Ctx) []string {
 	}
 	sort.Strings(out)
 	return out
+}
+
+// ownerField: governed record types that belong to another identity, and the field naming it.
+var ownerField = map[string]string{"Service": "ChainID", "Dapp": "OwnerAddr"}
+
+// c17OwnerFromRecord: R17.10.
+func (c *Ctx) c17OwnerFromRecord() {
+	r := c.R
+	m := c.Contracts()
+	n := 0
+	for _, fn := range c.P.ModuleFuncs(true) {
+		if core.PkgOf(fn) != "internal/executor/contracts" || len(fn.Blocks) == 0 {
+			continue
+		}
+		sites := m.permSites(fn)
+		if len(sites) == 0 {
+			continue
+		}
+		// records of an owned type that this function loaded: results of calls / type assertions (not literals)
+		type rec struct {
+			v     ssa.Value
+			tn, f string
+		}
+		var recs []rec
+		for _, b := range fn.Blocks {
+			for _, in := range b.Instrs {
+				v, ok := in.(ssa.Value)
+				if !ok {
+					continue
+				}
+				switch in.(type) {
+				case *ssa.TypeAssert, *ssa.Call, *ssa.Extract:
+				default:
+					continue
+				}
+				pt, ok := v.Type().(*types.Pointer)
+				if !ok {
+					continue
+				}
+				nt, ok := pt.Elem().(*types.Named)
+				if !ok {
+					continue
+				}
+				if f, ok := ownerField[nt.Obj().Name()]; ok {
+					recs = append(recs, rec{v, nt.Obj().Name(), f})
+				}
+			}
+		}
+		if len(recs) == 0 {
+			continue
+		}
+		for i, s := range sites {
+			if s.permsOK {
+				onlySpecific := true
+				for _, p := range s.perms {
+					if p != "PermissionSpecific" {
+						onlySpecific = false
+					}
+				}
+				if onlySpecific {
+					continue
+				}
+			}
+			pf := m.perm[core.StaticCallee(s.call)]
+			if pf == nil || pf.regIdx-1 < 0 {
+				continue
+			}
+			id := s.call.Call.Args[pf.regIdx-1]
+			// the check has to come after the load to be about the loaded record
+			var loaded *rec
+			for k := range recs {
+				if in, ok := recs[k].v.(ssa.Instruction); ok && in.Block().Dominates(s.call.Block()) {
+					loaded = &recs[k]
+				}
+			}
+			if loaded == nil {
+				continue
+			}
+			n++
+			fromOwner := core.Mentions(id, func(v ssa.Value) bool {
+				o, f, _, ok := core.FieldOf(v)
+				return ok && f == loaded.f && strings.HasSuffix(o, loaded.tn)
+			})
+			key := fmt.Sprintf("%s: permission checked against the recorded owner #%d", shortFn(fn), i)
+			r.Check(fromOwner, "R17.10", key, c.P.Pos(s.call.Pos()), "the identity is "+loaded.tn+"."+loaded.f+" of the loaded record",
+				"the function has loaded the "+loaded.tn+" but checks the caller against an identity that is not the record's "+loaded.f+" (derived from the caller-supplied id instead): for an id whose parsed part names another registered object, that object's admin passes the check and governs something it does not own, while the genuine owner is refused")
+		}
+	}
+	r.Floor("R17.10", "Self/Admin permission checks on a loaded, owned record", n, 2)
 }
